@@ -151,7 +151,7 @@ theorem idxLen_of_valid {e : Edges α} (he : ValidEdges e) : IdxLen guess e (dim
 /-- in a regular array the path of an in-range bin index leads to a cell -/
 theorem cellAt_of_pathOf {dims : List Nat} {a : NArr σ} (hs : NArr.HasShape dims a) {idx : List Int}
     {p : List Nat} (h : pathOf dims idx = some p) : ∃ c, cellAt a p = some c := by
-  unfold pathOf at h
+  rw [pathOf_eq] at h
   split at h
   · rename_i hr
     simp only [Option.some.injEq] at h
@@ -348,7 +348,7 @@ theorem route_inCell {edges : Edges α} (he : ValidEdges edges) (hg : GuessesOK 
     route names av guess edges (dimsOf edges.axes) v = .ok (some p) ↔ InCell edges.axes xs p := by
   have hspec := C06.getBinOnValue_spec guess hg he hp
   have hiff := C06.inCell_iff edges.axes xs p (C06.validEdges_strictInc he) hp.length
-  simp only [route, hx, hspec, pathOf]
+  simp only [route, hx, hspec, pathOf_eq]
   rw [hiff]
   by_cases hr : C06.InRange (C06.indices edges.axes xs) (dimsOf edges.axes)
   · simp only [hr, if_true, Except.ok.injEq, Option.some.injEq, true_and]
@@ -361,7 +361,7 @@ theorem route_outside {edges : Edges α} (he : ValidEdges edges) (hg : GuessesOK
     (hp : Proper edges x xs) :
     route names av guess edges (dimsOf edges.axes) v = .ok none ↔ ∀ p, ¬ InCell edges.axes xs p := by
   have hspec := C06.getBinOnValue_spec guess hg he hp
-  simp only [route, hx, hspec, pathOf]
+  simp only [route, hx, hspec, pathOf_eq]
   by_cases hr : C06.InRange (C06.indices edges.axes xs) (dimsOf edges.axes)
   · simp only [hr, if_true, Except.ok.injEq, reduceCtorEq, false_iff]
     intro hall
@@ -395,10 +395,6 @@ section Compute
 variable [LT α] [LE α] [DecidableLT α] [DecidableLE α] [DecidableEq α]
   [Std.IsLinearOrder α] [Std.LawfulOrderLT α]
 variable (names : List String) (an : Analysis σ D ρ ε) (av : ArgVar α D ε)
-
-/-- the documented formats of edges: flat for one dimension, nested for two or more
-(`[[0, 1, 2]]` is neither, see `mkHistogram_nested1`) -/
-def NotNested1 (e : Edges α) : Prop := ∀ axes, e = .nested axes → axes.length ≠ 1
 
 theorem mkHistogram_eq {e : Edges α} {b : NArr β} {h : Hist α β}
     (hm : (mkHistogram e b : Except (Exc ε) (Hist α β)) = .ok h) : h = ⟨e, b⟩ := by
@@ -469,9 +465,6 @@ theorem exists_cell {e : Edges α} (he : ValidEdges e) {a : NArr β} (hs : NArr.
   cases hc : cellAt a ((dimsOf e.axes).map (fun _ => 0)) with
   | none => simp [hc] at this
   | some c => exact ⟨_, c, hc⟩
-
-/-- the generators of the cells, as `compute` sees them -/
-def cellTraces (s : SIB α σ) : NArr (Trace ρ (Exc ε)) := NArr.map (fun c => (an.compute c).liftInner) s.bins
 
 /-- `compute()` when `_update_context` succeeds: the `_MdSeqMap` over the cells' generators -/
 theorem compute_eq {s : SIB α σ} (he : ValidEdges s.edges) (hs : NArr.HasShape (dimsOf s.edges.axes) s.bins)
@@ -733,17 +726,6 @@ theorem exampleBin_ok {h : Hist α β} (he : ValidEdges h.edges) (hs : NArr.HasS
         | nil => rfl
         | cons a rest ih => simp [List.replicate_succ, ih]
     simp only [exampleBin, hrep, getBin_of_cellAt _ _ _ hc]
-
-/-- what `IterateBins` yields for the cell with index path `p` and content `histc`: the data of the cell with
-the context built from the cell's own context, the histogram's context and the cell's own edges -/
-def cellOutput (createEdgesStr : List (α × α) → Option V → Except (Exc ε) V) (encEdges : List (α × α) → V)
-    (hctx : Slots) (axes : List (List α)) (pc : List Nat × Value D) : Except (Exc ε) (FVal α D) :=
-  match cellEdges axes pc.1 with
-  | .error e => .error e
-  | .ok ce =>
-    match binContext names createEdgesStr encEdges hctx pc.2 ce with
-    | .error e => .error e
-    | .ok v => .ok (.plain v)
 
 /-- **Sentence (5): `IterateBins` enumerates every cell once with its own edges and context.**  For a
 histogram with valid edges and regular bins whose example bin is selected, `IterateBins.run` yields, for the
